@@ -95,6 +95,19 @@ def build(kind, log, refs=None, coroutine=None):
                 refs.append(weakref.ref(t))
             return {'a': a, 'b': b, 'ctx': getattr(self.context, 'tag', None)}
 
+    class Basket(pjrpc.server.ViewMixin):
+        """a view registered WITHOUT a context whose constructor prepares per-request state"""
+        def __init__(self, context=None):
+            super().__init__()
+            self.items = []
+            if refs is not None:
+                refs.append(weakref.ref(self))
+
+        def push(self, x):
+            self.items.append(x)
+            log.append(('push', dict(items=list(self.items))))
+            return list(self.items)
+
     # validated view methods (the validators see the per-request bound method)
     pd.validate(View.vpd)
     js.validate(schema={'type': 'object', 'properties': {'a': {'type': 'integer'}}})(View.vjs)
@@ -165,6 +178,7 @@ def build(kind, log, refs=None, coroutine=None):
         jsfmt_strict, jsfmt_lenient, pdv2 = co(jsfmt_strict), co(jsfmt_lenient), co(pdv2)
         ping, whoami, limits, page = co(ping), co(whoami), co(limits), co(page)
     d.registry.view(View, context='context')
+    d.registry.view(Basket)
     d.add(withctx, name='withctx', context='ctx')
     d.add(jsv, name='jsv', context='ctx')
     d.add(pdv, name='pdv', context='ctx')
@@ -197,7 +211,7 @@ ALPHABET = [
     ('vpd', call('vpd', [1])), ('vpdfail', call('vpd', ['x'])), ('vjs', call('vjs', [1])), ('vjsfail', call('vjs', ['x'])),
     ('fmt-strict-bad', call('jsfmt_strict', ['not-an-ip'])), ('fmt-strict-ok', call('jsfmt_strict', ['1.2.3.4'])),
     ('fmt-lenient', call('jsfmt_lenient', ['not-an-ip'])), ('pdv2', call('pdv2', ['s'])), ('pdv2fail', call('pdv2', {'a': 's', 'b': 'x'})),
-    ('ping', call('ping')), ('whoami', call('whoami')), ('limits', call('limits')), ('page', call('page')), ('alive', call('alive')),
+    ('push', call('push', [1])), ('ping', call('ping')), ('whoami', call('whoami')), ('limits', call('limits')), ('page', call('page')), ('alive', call('alive')),
     ('parse', '{"jsonrpc": "2.0", '), ('invalid', '{"jsonrpc":"2.0","id":1}'), ('boomt', call('boomt')),
 ]
 TEXT = dict(ALPHABET)
@@ -253,7 +267,7 @@ def run_retention(case, rec):
     kind, req = case['kind'], case['request']
     refs = []
     s = build(kind, None, refs=refs)
-    text = TEXT[req]
+    text = TEXT.get(req)
     measures = {}
     ctx_refs = []
     done = 0
@@ -261,6 +275,11 @@ def run_retention(case, rec):
         while done < N:
             c = Ctx(done)
             ctx_refs.append(weakref.ref(c))
+            if req == 'VARYING-unknown':
+                # every request differs from the previous ones: another unknown method name, another id, another argument
+                text = call('no_such_method_%d' % done, [done], id='id-%d' % done)
+            elif req == 'VARYING-notif':
+                text = call('no_such_method_%d' % done, {'k%d' % done: done}, id=None)
             o = observe(s, text, context=c)
             del c, o
             done += 1
@@ -295,7 +314,7 @@ def run_retention(case, rec):
 # ---- (c) -------------------------------------------------------------------------------------------------------
 PAIRS = [
     ('whoami', 'ping'), ('page', 'limits'),
-    ('view', 'view'), ('ok', 'ok'), ('ctx', 'view'), ('ok', 'boom'), ('batch', 'ctx'), ('jsok', 'jsfail'),
+    ('push', 'push'), ('view', 'view'), ('ok', 'ok'), ('ctx', 'view'), ('ok', 'boom'), ('batch', 'ctx'), ('jsok', 'jsfail'),
     ('nobind', 'ok'), ('pdok', 'pdok'), ('viewfail', 'view'), ('ctxinject', 'ctx'), ('perr', 'unknown'), ('notif', 'parse'),
     ('fmt-strict-bad', 'fmt-lenient'), ('vpd', 'vjs'), ('pdv2', 'pdok'), ('vpd', 'vpd'),
 ]
@@ -376,7 +395,7 @@ def gen_cases(ctx):
     # (b)
     for kind in ('sync', 'async'):
         for req in ('ok', 'boom', 'nobind', 'view', 'viewfail', 'ctx', 'ctxinject', 'jsok', 'jsfail', 'pdok', 'pdfail', 'batch',
-                    'notif', 'unknown', 'vpd', 'vpdfail', 'vjs', 'vjsfail', 'fmt-strict-bad', 'pdv2'):
+                    'notif', 'unknown', 'vpd', 'vpdfail', 'vjs', 'vjsfail', 'fmt-strict-bad', 'pdv2', 'push', 'VARYING-unknown', 'VARYING-notif'):
             yield dict(part='b', kind=kind, request=req)
     # (c)
     for pair in PAIRS:
@@ -418,7 +437,7 @@ def run(ctx):
     ctx.run_cases('C13', lambda: gen_cases(ctx), run_case, recheck_every=100003)
     c = ctx.rec.counters
     ctx.guard('threads really interleaved inside dispatch', c['thread schedules that interleaved inside dispatch'] > 100, dict(c))
-    ctx.guard('retention runs done', c['retention runs'] == 40, dict(c))
+    ctx.guard('retention runs done', c['retention runs'] == 46, dict(c))
 
 
 def replay(doc):
